@@ -560,6 +560,13 @@ fn examine(
         Err(e) => {
             stats.open_failures += 1;
             out.push(Finding { msg: format!("C03: {e} on a crash image"), desc: desc.to_string() });
+            if let Some(r0) = reference {
+                // the image is an interrupted recovery of a device that recovered fine
+                out.push(Finding {
+                    msg: format!("C04: recovery cannot be restarted after a crash during recovery: {e}; the first recovery succeeded with {:?}", brief(r0)),
+                    desc: desc.to_string(),
+                });
+            }
             return;
         }
     };
